@@ -51,6 +51,9 @@ ASSUMPTIONS = [
     "away from an integer: exactly at such ties a rounding error of one ulp in the shifted coordinate changes which "
     "grid point is inside the window (that point has weight K(+-1)=1 against I0(beta)~1e2..1e4 at the centre - within "
     "the stated accuracy, but not 1e-9)",
+    "output dtype == input dtype for complex inputs is not in the docstrings; fft/ifft cast back to the input dtype "
+    "explicitly and interpolate/gridding allocate their output with input.dtype, so it is the code's stated intent "
+    "and is asserted (nufft:dtype, nufft_adjoint:dtype)",
     "the Gram bound 3 eps ||G||_2 ||x|| follows from ||A-E||_2 <= eps ||E||_2 (operator-norm reading of the stated "
     "accuracy): ||A^H A - E^H E|| <= (2 eps + eps^2) ||E||^2",
     "dense matrices of nufft / nufft_adjoint are obtained from one batched call on the identity (batch consistency is "
@@ -109,7 +112,7 @@ def st_case(draw):
         x = draw(A.randint(shape, xdt))
     return {"grid": grid, "batch": batch, "coord": coord, "pclass": pc, "oversamp": os_, "width": w,
             "x": x, "xkind": kind, "cdtype": cdt,
-            "m": [draw(st.integers(-3, 3)) for _ in range(d)],
+            "m": [draw(st.sampled_from([-3, -2, -1, 1, 2, 3]))] + [draw(st.integers(-3, 3)) for _ in range(d - 1)],
             "lin": {"a": [draw(st.integers(-8, 8)), draw(st.integers(-8, 8))],
                     "b": [draw(st.integers(-8, 8)), draw(st.integers(-8, 8))], "seed": draw(A.seeds)}}
 
@@ -342,7 +345,7 @@ def check_case(case):
                     "points, %s coords)" % (diff, tp, scale, m, grid, os_, w, pp.shape[0], cdt))
             r.label("periodicity-checked")
     else:
-        r.label("periodicity-skipped(m=0 or no tie-free point)")
+        r.label("periodicity-skipped(no tie-free point)")
 
     # ---- adjoint: shape/dtype, dense matrices, exact adjointness with identical scaling
     oshape = batch + grid
@@ -446,4 +449,4 @@ def check_case(case):
     return r
 
 
-PARTS = [Part("nufft", check_case, {"quick": 1500, "thorough": 25000}, strategy=st_case)]
+PARTS = [Part("nufft", check_case, {"quick": 3000, "thorough": 80000}, strategy=st_case)]
